@@ -500,7 +500,12 @@ class Mitochondria:
         self._require_capabilities(tool_name, tool)
 
         args = [self._compute_node(arg) for arg in tree.body.args]
-        kwargs = {kw.arg: self._compute_node(kw.value) for kw in tree.body.keywords if kw.arg}
+        kwargs = {}
+        for kw in tree.body.keywords:
+            if kw.arg is None:
+                # same refusal as for allow-listed calls; dropping the argument would run the tool without it
+                raise ValueError("Keyword unpacking (**) not supported")
+            kwargs[kw.arg] = self._compute_node(kw.value)
 
         return tool.execute(*args, **kwargs)
 
